@@ -310,6 +310,20 @@ BParJobs(shape, dim, class, T) ==
 \* (apply1/apply2 format their output vector: a call with alpha into a filled vector yields alpha * A x)
 RepeatSemantics(r) == IF r \in {"gpdv", "gradop", "apply"} THEN "overwrite" ELSE "accumulate"
 
+\* ---- two-level (inter-mesh) sparsity contract ----------------------------------------------------------------------
+\* Pat_2lvl(fine space, coarse space) = union over coarse cells c of Dofs_fine(children(c)) x Dofs_coarse(c):  the pattern of
+\* SymbolicAssembler::assemble_matrix_2lvl / assemble_graph_2lvl / assemble_graph_intermesh, into which GridTransfer writes
+\* prolongation / truncation matrices.  The contract is stated on the meshes AS THEY ARE NUMBERED, so it must hold for every
+\* mesh permutation strategy (RootMeshNode / ConformalMesh::create_permutation) on the fine and / or the coarse level.
+PermStrategies == {"none", "random", "lexicographic", "colored", "cuthill_mckee", "cuthill_mckee_reversed",
+                   "geometric_cuthill_mckee", "geometric_cuthill_mckee_reversed"}
+PermPairsFull == {<<f, c>> : f \in PermStrategies, c \in PermStrategies}                    \* <<fine, coarse>>
+PermPairsCross == {p \in PermPairsFull : p[1] = "none" \/ p[2] = "none" \/ p[1] = p[2]}
+NumChildren(shape, dim) == IF shape = "hypercube" THEN PowA(2, dim) ELSE IF dim = 2 THEN 4 ELSE 12
+\* cubature degree for the local mass matrices of the grid transfer
+TwoLevelDeg(s, shape) == 2 * LocalDeg(s, shape) + 2
+TwoLevelPlan(s, shape) == [space |-> s, deg |-> TwoLevelDeg(s, shape), full |-> SetToSeqA(PermPairsFull), cross |-> SetToSeqA(PermPairsCross)]
+
 \* vector routes: classic = LinearFunctionalAssembler::assemble_vector, domain = LinearFunctionalAssemblyJob,
 \* domainforce = ForceFunctionalAssemblyJob (force only)
 FuncsOf(dim) ==
@@ -396,7 +410,8 @@ JobsOf(p) == SetToSeqA(MatJobs(p.shape, p.dim, p.class, p.test, p.trial))
              \o SetToSeqA(GDJobs(p.shape, p.dim, p.class, p.test, p.trial))
              \o (IF p.test = p.trial THEN SetToSeqA(BParJobs(p.shape, p.dim, p.class, p.test)) ELSE << >>)
 
-Emit == PrintT(ToJson([plan |-> plan, jobs |-> JobsOf(plan)]))
+Emit == PrintT(ToJson([plan |-> plan, jobs |-> JobsOf(plan),
+                       twolevel |-> IF plan.test = plan.trial /\ plan.class = "box" THEN <<TwoLevelPlan(plan.test, plan.shape)>> ELSE << >>]))
 
 \* sanity laws of the catalogue, evaluated by TLC on every plan
 \* the two closed forms agree on the unit square (one cell, G = 1)
